@@ -151,9 +151,10 @@ def build_model(pid, force=False):
 def build_harness(cmd):
     """go build of /repo/cmd/<cmd> (overlay) from the current working tree of /repo."""
     out = os.path.join(BUILD, "h_" + cmd)
+    ovj = os.path.join(BUILD, "overlay_%s.json" % hashlib.sha1(REPO.encode()).hexdigest()[:8])
     with Lock("overlay"):
-        sh([sys.executable, os.path.join(ROOT, "harness", "mkoverlay.py")])
-    rc, o = sh([go_bin(), "build", "-tags", "verif", "-overlay", os.path.join(BUILD, "overlay.json"),
+        sh([sys.executable, os.path.join(ROOT, "harness", "mkoverlay.py"), ovj], env=dict(os.environ, VERIF_REPO=REPO))
+    rc, o = sh([go_bin(), "build", "-tags", "verif", "-overlay", ovj,
                 "-o", out, "./cmd/" + cmd], cwd=REPO, env=go_env(), timeout=1800)
     return rc == 0, o[-4000:], out
 
@@ -259,7 +260,21 @@ def main(argv=None):
     samples = []
     mism = []
     pipeline_err = None
-    if not okm:
+    if okm and okh and spec.get("uses_hashes"):
+        ok1, l1 = build_model("HASHTEST")
+        ok2, l2, hb = build_harness("verif_hashtest")
+        if ok1 and ok2:
+            hd = os.path.join(workdir, "hashtest"); os.makedirs(hd)
+            with open(os.path.join(hd, "cases.txt"), "w") as f:
+                subprocess.run([hb, "gen", "--seed", str(a.seed)], stdout=f, env=go_env(), timeout=600)
+            _, hm, hdone, herr = run_pipeline("HASHTEST", dict(model="HASHTEST"), hb, os.path.join(hd, "cases.txt"), hd)
+            if herr or hm:
+                pipeline_err = "OCaml hash self-test against Go failed: %s %s" % (herr, hm[:1])
+        else:
+            pipeline_err = "hash self-test build failed: " + l1 + l2
+    if pipeline_err:
+        pass
+    elif not okm:
         pipeline_err = "model build failed:\n" + logm
     elif not okh:
         pipeline_err = "harness build failed against the current /repo tree:\n" + logh
